@@ -269,6 +269,7 @@ func mount(prov string, p providers.Provider, st *statsd.Client, own *idp) (*mou
 func httpURL(host, path string) *url.URL { return &url.URL{Scheme: "http", Host: host, Path: path} }
 
 // crashes counts the /callback requests observed as crashed, per provider.
+// (keyed by the authenticator mount: the provider, or provider-configuration; filled before the workload starts)
 var crashes = map[string]*int64{"google": new(int64), "okta": new(int64), "cognito": new(int64)}
 
 var slowSite = map[string]string{"google": "redeem", "okta": "callback", "cognito": "redeem"}
@@ -276,9 +277,11 @@ var slowSite = map[string]string{"google": "redeem", "okta": "callback", "cognit
 func TestProp(t *testing.T) {
 	env := vh.GetEnv()
 	rep := vh.NewReport("C10", "fault_enumeration")
-	rep.Rule("per provider (google, okta, cognito) the structural answer space is ENUMERATED: token answers = 32 status codes x 3 bodies, every truncation point of the valid body, 25 body shapes, 7 access_token variants, 12 non-essential field variants, connection faults; userinfo answers (okta, cognito) likewise + e-mail(6) x email_verified(7); id_tokens (every provider; google reads the e-mail from them, for okta/cognito they sit beside a valid vouching answer and name a decoy e-mail) = segments(1..5) x base64 class(6) x email_verified(7) x e-mail(6) + segments x 9 payload shapes + 22 raw id_token values (absent, empty, null, mistyped, dots only, not-a-jwt, header-only, huge, ...); optional fields (token: token_type, expires_in, refresh_token, scope, sub; userinfo: sub, name, groups, username, ...; id_token claims) x 20 hostile shapes; decoy identities: e-mail field missing/empty/null/mistyped/unverified x an e-mail-shaped decoy in each of 13 other fields (username, preferred_username, sub, name, upn, emails[], identities[0].userId, ...) or all of them x location (token answer, id_token claims, userinfo); Email/EMAIL/eMail key spellings; browser state at /callback (live session cookie of the same / another user, expired, forged - sealed with the authenticator's cookie key) x 20 IdP answers (statuses, malformed, dropped, unverified, vouching); then seeded random byte-level mutations of valid answers. Every case is run at two sites: provider.Redeem directly and the real authenticator /start -> /callback (e-mails, codes and tokens unique per case and site). distinct = provider|site|class|dimension values (truncation index, status, ...) or mutation target+operator sequence, counted only for cases that produced an outcome")
+	rep.Rule("per provider (google, okta, cognito) the structural answer space is ENUMERATED: token answers = 32 status codes x 3 bodies, every truncation point of the valid body, 25 body shapes, 7 access_token variants, 12 non-essential field variants, connection faults; userinfo answers (okta, cognito) likewise + e-mail(6) x email_verified(7); id_tokens (every provider; google reads the e-mail from them, for okta/cognito they sit beside a valid vouching answer and name a decoy e-mail) = segments(1..5) x base64 class(6) x email_verified(7) x e-mail(6) + segments x 9 payload shapes + 22 raw id_token values (absent, empty, null, mistyped, dots only, not-a-jwt, header-only, huge, ...); optional fields (token: token_type, expires_in, refresh_token, scope, sub; userinfo: sub, name, groups, username, ...; id_token claims) x 20 hostile shapes; decoy identities: e-mail field missing/empty/null/mistyped/unverified x an e-mail-shaped decoy in each of 13 other fields (username, preferred_username, sub, name, upn, emails[], identities[0].userId, ...) or all of them x location (token answer, id_token claims, userinfo); Email/EMAIL/eMail key spellings; browser state at /callback (live session cookie of the same / another user, expired, forged - sealed with the authenticator's cookie key) x 20 IdP answers (statuses, malformed, dropped, unverified, vouching); then seeded random byte-level mutations of valid answers. Every case is run at two sites: provider.Redeem directly and the real authenticator /start -> /callback (e-mails, codes and tokens unique per case and site). distinct = provider|site|class|dimension values (truncation index, status, ...) or mutation target+operator sequence, counted only for cases that produced an outcome. CONFIGURATION is a further dimension: every provider is built again by its exported constructor under its documented options (google: hosted domain + prompt / directory service account (impersonate + credentials file) / both + scope; okta: custom authorization server id / custom scope list; cognito: other region, user pool, credentials, scope list), each behind its own authenticator mount, and every configuration - the default one included - gets the claims grid: e-mail(6) x email_verified(true, false, absent, \"true\", \"false\", 1, 0, null, [true]) x (google) hd claim(absent, own domain, own domain in another case, other domain, empty, null) x claim set(minimal / everything a provider really sends: iss azp aud sub at_hash nonce iat exp name locale ... / the same of another client and expired), (okta, cognito) x plain or rich userinfo (hd, locale, phone_number_verified, preferred_username = decoy ...) beside an id_token that names a verified decoy; the optioned configurations also get the structural grid above (thorough: all of it; quick: small classes completely, large ones every 24th case, offset from the seed) and random mutations")
 	rep.Assume("the scripted identity providers (the harness's own http server; for okta /callback the sut's TLS fake IdP) answer exactly as scripted; ground truth is the label the generator attached by construction, cross-checked by an independent lenient reading of the served bytes (disagreement => inconclusive)")
 	rep.Assume("verified means the JSON boolean true; 2xx statuses other than 200, byte-order marks, key-case variants, duplicate keys, padded base64url, id_tokens with 2/4/5 segments whose second segment is a valid verified payload, google answers without access_token, hostile optional fields and (okta, cognito) odd id_tokens beside a vouching userinfo answer are don't-care zones for session/no-session - never for a crash (a session there must still carry the e-mail in the answer)")
+
+	rep.Assume("under every provider configuration the statement reads the same: no option (hosted domain, directory service account, authorization server, scopes, region / pool) turns an unverified or missing e-mail into a vouched one; email_verified false, \"false\", 0, null and missing are not verified, the encodings \"true\", 1 and [true] are unsettled (counted don't-care), as are a verified e-mail whose hd claim is not the configured hosted domain and one in an id_token of another client / expired")
 
 	own := newIdP()
 	defer own.close()
@@ -333,9 +336,24 @@ func TestProp(t *testing.T) {
 	om := &mountedSite{prov: "okta", slug: as.Slug, host: as.Host, client: as.Client, cookieName: as.CookieName, csrfName: as.CSRFName,
 		cipher: as.CookieCipher, clientID: as.ClientID, clientSecret: as.ClientSecret, panics: as.ErrLog.Panics, okta: as}
 
+	// ---- the same providers under their documented options (cfg_test.go)
+	cfgs, closeCfgs, err := buildConfigs(own, st, t.TempDir(), lifetime)
+	defer closeCfgs()
+	if err != nil {
+		t.Fatal(err)
+	}
+	ownMounts := []*mountedSite{gm, cm}
+	allMounts := []*mountedSite{gm, cm, om}
+	for _, c := range cfgs {
+		ownMounts = append(ownMounts, c.mounted)
+		allMounts = append(allMounts, c.mounted)
+		crashes[c.mounted.prov] = new(int64)
+		rep.Extra("configuration_"+cfgTag(c.prov, c.name), c.what)
+	}
+
 	// ---- probes: a handler panic IS visible the way the monitor looks for it
 	baseline := map[string]int{}
-	for _, m := range []*mountedSite{gm, cm} {
+	for _, m := range ownMounts {
 		rs := m.client.Do(sut.Req{Host: m.host, Target: "/__verif_panic"})
 		if rs.Err != nil && m.panics() >= 1 {
 			rep.Count("panic_probe_http_observed", 1)
@@ -349,13 +367,29 @@ func TestProp(t *testing.T) {
 	type stream struct {
 		prov, siteName string
 		s              site
+		cfg            *provCfg // nil: the original streams
 	}
 	streams := []stream{
-		{"google", "redeem", &directSite{google, own}}, {"google", "callback", gm},
-		{"okta", "redeem", &directSite{oktaDirect, own}}, {"okta", "callback", om},
-		{"cognito", "redeem", &directSite{cognito, own}}, {"cognito", "callback", cm},
+		{"google", "redeem", &directSite{google, own}, nil}, {"google", "callback", gm, nil},
+		{"okta", "redeem", &directSite{oktaDirect, own}, nil}, {"okta", "callback", om, nil},
+		{"cognito", "redeem", &directSite{cognito, own}, nil}, {"cognito", "callback", cm, nil},
+	}
+	nOrig := len(streams)
+	// configuration streams: the claims grid under the default configuration (on the providers and mounts above) ...
+	for _, d := range []struct {
+		prov   string
+		direct providers.Provider
+		m      *mountedSite
+	}{{"google", google, gm}, {"okta", oktaDirect, om}, {"cognito", cognito, cm}} {
+		c := &provCfg{prov: d.prov, name: "default", no: 1, direct: d.direct, mounted: d.m}
+		streams = append(streams, stream{d.prov, "redeem", &directSite{d.direct, own}, c}, stream{d.prov, "callback", d.m, c})
+	}
+	// ... and claims grid + structural grid + mutations under every optioned configuration
+	for _, c := range cfgs {
+		streams = append(streams, stream{c.prov, "redeem", &directSite{c.direct, own}, c}, stream{c.prov, "callback", c.mounted, c})
 	}
 	nMut := env.Pick(100, 9200)
+	nMutCfg := env.Pick(16, 1200)
 	replaying := env.Replay != ""
 	expectClauses := map[string]bool{}
 	var emu sync.Mutex
@@ -364,23 +398,45 @@ func TestProp(t *testing.T) {
 	for _, sm := range streams {
 		sm := sm
 		name := sm.prov + "-" + sm.siteName
+		workers, nm, idBase := 12, nMut, 0
+		if sm.cfg != nil {
+			name = sm.prov + "+" + sm.cfg.name + "-" + sm.siteName
+			workers, nm, idBase = 4, nMutCfg, sm.cfg.no*100000
+			if sm.cfg.no == 1 {
+				nm = 0
+			}
+		}
 		only, skip := env.Only(name)
 		if skip {
 			continue
 		}
-		specs := buildSpecs(sm.prov, env.Thorough())
-		rep.Extra("structural_cases_"+sm.prov, len(specs))
+		var specs []spec
+		if sm.cfg == nil {
+			specs = buildSpecs(sm.prov, env.Thorough())
+			rep.Extra("structural_cases_"+sm.prov, len(specs))
+		} else {
+			specs = cfgSpecs(sm.prov, sm.cfg, env.Thorough(), env.Seed, sm.siteName)
+			rep.Extra("configuration_cases_"+cfgTag(sm.prov, sm.cfg.name)+"_"+sm.siteName, len(specs))
+		}
 		wg.Add(1)
 		go func() {
 			defer wg.Done()
-			vh.ForEach(len(specs)+nMut, 12, only, func(i int) {
+			t0 := time.Now()
+			defer func() { rep.Extra("wall_stream_"+name+"_s", time.Since(t0).Seconds()) }()
+			vh.ForEach(len(specs)+nm, workers, only, func(i int) {
 				r := vh.CaseRNG(env.Seed, name, i)
-				id := mkIDs(sm.prov, sm.siteName, i, r)
+				id := mkIDs(sm.prov, sm.siteName, idBase+i, r)
 				var k kase
-				if i < len(specs) {
-					k = build(sm.prov, specs[i], id)
-				} else {
+				switch {
+				case i >= len(specs):
 					k = buildMutation(sm.prov, r, id)
+				case sm.cfg != nil:
+					k = buildCfg(sm.prov, sm.cfg, specs[i], id)
+				default:
+					k = build(sm.prov, specs[i], id)
+				}
+				if sm.cfg != nil {
+					k.Cfg, k.CfgOpt = sm.cfg.name, sm.cfg.what
 				}
 				k.Site, k.Index = sm.siteName, i
 				k.TokenB = clip(k.Token.Body, 700)
@@ -397,7 +453,7 @@ func TestProp(t *testing.T) {
 				}
 				if k.Label == lRefuse {
 					emu.Lock()
-					expectClauses[sm.prov+"|"+k.Clause] = true
+					expectClauses[k.tag()+"|"+k.Clause] = true
 					emu.Unlock()
 				}
 				o := sm.s.run(&k)
@@ -407,20 +463,21 @@ func TestProp(t *testing.T) {
 		}()
 	}
 	wg.Wait()
+	flushHeld(rep)
 	rep.Extra("wall_workload_s", time.Since(start).Seconds())
 
 	// handler panics the servers logged (google/cognito: beyond the probe)
-	for _, m := range []*mountedSite{gm, cm, om} {
+	for _, m := range allMounts {
 		extra := m.panics() - baseline[m.prov]
 		rep.Count("server_panic_log_lines_"+m.prov, extra)
 		if extra > 0 && atomic.LoadInt64(crashes[m.prov]) == 0 {
-			rep.Violate(m.prov+"-callback", -1, m.prov+": handler-panic-logged-unattributed", fmt.Sprintf("the %s authenticator's server logged %d handler panics that no case observed as a crashed request", m.prov, extra), nil)
+			rep.Violate(m.prov+"-callback", -1, strings.Replace(m.prov, "-", "+", 1)+": handler-panic-logged-unattributed", fmt.Sprintf("the %s authenticator's server logged %d handler panics that no case observed as a crashed request", m.prov, extra), nil)
 		}
 	}
 	rep.Count("idp_unscripted_calls", own.unscriptedCalls())
 
 	if !replaying {
-		for _, sm := range streams {
+		for _, sm := range streams[:nOrig] {
 			rep.Floor("sessions_created_vouched_"+sm.prov+"_"+sm.siteName, 10)
 			rep.Floor("refused_"+sm.prov+"_"+sm.siteName, 200)
 			rep.Floor("mutation_cases_"+sm.prov+"_"+sm.siteName, nMut*9/10)
@@ -442,7 +499,34 @@ func TestProp(t *testing.T) {
 		for _, b := range browserStates[1:] {
 			rep.Floor("browser_state_"+b, 50)
 		}
-		rep.Floor("panic_probe_http_observed", 2)
+		// the configuration streams
+		for _, sm := range streams[nOrig:] {
+			tag := cfgTag(sm.prov, sm.cfg.name)
+			ps := tag + "_" + sm.siteName
+			if sm.prov == "google" {
+				rep.Floor("claims_grid_cases_"+ps, 240)
+			} else {
+				rep.Floor("claims_grid_cases_"+ps, 100)
+			}
+			if sm.cfg.no > 1 {
+				rep.Floor("sessions_created_vouched_"+ps, 5)
+				rep.Floor("refused_"+ps, 100)
+				rep.Floor("mutation_cases_"+ps, nMutCfg*9/10)
+			}
+			if sm.siteName != "redeem" {
+				continue
+			}
+			switch sm.prov {
+			case "google":
+				rep.Floor("claims_grid_not_verified_"+tag, 100)
+				for _, hd := range hdNames {
+					rep.Floor("claims_grid_not_verified_"+tag+"_hd-"+hd, 20)
+				}
+			case "okta":
+				rep.Floor("claims_grid_not_verified_"+tag, 16)
+			}
+		}
+		rep.Floor("panic_probe_http_observed", len(ownMounts))
 		rep.Floor("panic_probe_recover_observed", 1)
 		rep.Floor("slow_answers_beyond_client_timeout", 3)
 	}
@@ -460,6 +544,48 @@ func (panicProvider) Redeem(string, string) (*sessions.SessionState, error) {
 	return nil, nil
 }
 
+// violate reports a violation found by judge. What a configuration stream finds is held back until the workload is
+// over: a break that the same provider shows under its default configuration too is reported once, under the
+// provider's signature (and counted per configuration); only a break that needs the configuration is reported under
+// the provider+configuration signature.
+type heldViolation struct {
+	stream, tag, base, rest, what string
+	k                             kase
+}
+
+var (
+	vmu      sync.Mutex
+	baseSigs = map[string]bool{}
+	held     []heldViolation
+)
+
+func violate(rep *vh.Report, stream string, k *kase, rest, what string) {
+	base := k.Prov + ": " + rest
+	if k.tag() == k.Prov {
+		vmu.Lock()
+		baseSigs[base] = true
+		vmu.Unlock()
+		rep.Violate(stream, k.Index, base, what, *k)
+		return
+	}
+	vmu.Lock()
+	held = append(held, heldViolation{stream, k.tag(), base, rest, what, *k})
+	vmu.Unlock()
+}
+
+func flushHeld(rep *vh.Report) {
+	vmu.Lock()
+	defer vmu.Unlock()
+	for _, h := range held {
+		if baseSigs[h.base] {
+			rep.Count("violations_also_seen_under_configuration_"+h.tag, 1)
+			continue
+		}
+		rep.Violate(h.stream, h.k.Index, h.tag+": "+h.rest, h.what, h.k)
+	}
+	held = nil
+}
+
 func under(s string) string {
 	return strings.NewReplacer(" ", "_", "|", "_", "<", "lt", "=", "_").Replace(s)
 }
@@ -467,7 +593,8 @@ func under(s string) string {
 // judge is the oracle: ground truth (label by construction / reference reading of the served bytes) against outcome.
 func judge(rep *vh.Report, stream string, k *kase, o outcome) {
 	k.Outcome, k.Status, k.SessionEmail, k.Err = o.kind, o.status, o.email, o.err
-	ps := k.Prov + "_" + k.Site
+	tag := k.tag() // the provider, or provider+configuration: names counters and signatures
+	ps := tag + "_" + k.Site
 	switch o.kind {
 	case "skipped":
 		rep.Count("skipped_unsupported_fault_"+ps, 1)
@@ -487,13 +614,13 @@ func judge(rep *vh.Report, stream string, k *kase, o outcome) {
 		rep.Inconclusive(fmt.Sprintf("harness: case labelled must-refuse but the reference reading finds a vouched e-mail (%s %s %s)", k.Prov, k.Class, k.Dims))
 		return
 	}
-	rep.Distinct(k.Prov + "|" + k.Site + "|" + k.descKey)
+	rep.Distinct(tag + "|" + k.Site + "|" + k.descKey)
 	rep.Count("outcome_"+ps+"_"+o.kind, 1)
 	if k.Site == "callback" {
-		rep.Count(fmt.Sprintf("callback_status_%s_%d", k.Prov, o.status), 1)
+		rep.Count(fmt.Sprintf("callback_status_%s_%d", tag, o.status), 1)
 	}
 	if k.Label == lRefuse {
-		rep.Count("decided_"+k.Prov+"_"+k.Clause, 1)
+		rep.Count("decided_"+tag+"_"+k.Clause, 1)
 	}
 	if k.Class == "mutation" {
 		rep.Count("mutation_cases_"+ps, 1)
@@ -505,26 +632,38 @@ func judge(rep *vh.Report, stream string, k *kase, o outcome) {
 		rep.Count(fmt.Sprintf("google_id_token_segments_%d", k.IDSegs), 1)
 	}
 	if k.Browser != "" {
-		rep.Count("browser_state_cases_"+k.Prov, 1)
+		rep.Count("browser_state_cases_"+tag, 1)
 		rep.Count("browser_state_"+k.Browser, 1)
 	}
 	switch k.Class {
 	case "tok-trunc":
-		rep.Count("truncation_points_token_"+k.Prov, 1)
+		rep.Count("truncation_points_token_"+tag, 1)
 	case "ui-trunc":
-		rep.Count("truncation_points_userinfo_"+k.Prov, 1)
+		rep.Count("truncation_points_userinfo_"+tag, 1)
 	case "tok-slow", "ui-slow":
 		rep.Count("slow_answers_beyond_client_timeout", 1)
 	}
 	if k.Index%487 == 3 {
 		rep.Sample(*k)
 	}
-	where := fmt.Sprintf("%s %s class=%s %s", k.Prov, map[string]string{"redeem": "provider.Redeem", "callback": "GET /" + k.Prov + "/callback"}[k.Site], k.Class, k.Dims)
+	if k.Class == "cfg-claims" {
+		rep.Count("claims_grid_cases_"+ps, 1)
+		if k.Label == lRefuse && k.Clause == "email-unverified" {
+			rep.Count("claims_grid_not_verified_"+tag, 1)
+			if k.Prov == "google" {
+				rep.Count("claims_grid_not_verified_"+tag+"_"+strings.TrimPrefix(k.PClass, "id_token-claims-"), 1)
+			}
+		}
+	}
+	where := fmt.Sprintf("%s %s class=%s %s", tag, map[string]string{"redeem": "provider.Redeem", "callback": "GET /" + k.slug() + "/callback"}[k.Site], k.Class, k.Dims)
+	if k.CfgOpt != "" {
+		where += " (provider options: " + k.CfgOpt + ")"
+	}
 
 	switch o.kind {
 	case "panicked":
 		if k.Site == "callback" {
-			atomic.AddInt64(crashes[k.Prov], 1)
+			atomic.AddInt64(crashes[k.slug()], 1)
 		}
 		cls := "class=" + k.Class
 		switch {
@@ -537,8 +676,8 @@ func judge(rep *vh.Report, stream string, k *kase, o outcome) {
 		case k.Clause != "" && k.Label == lRefuse:
 			cls = "clause=" + k.Clause
 		}
-		rep.Violate(stream, k.Index, k.Prov+": redeem-panics "+cls,
-			"the request crashed (panic) instead of ending in an error response: "+where+"; "+o.err, *k)
+		violate(rep, stream, k, "redeem-panics "+cls,
+			"the request crashed (panic) instead of ending in an error response: "+where+"; "+o.err)
 
 	case "created":
 		if k.Site == "callback" && o.status != 302 {
@@ -547,17 +686,17 @@ func judge(rep *vh.Report, stream string, k *kase, o outcome) {
 		switch k.Label {
 		case lRefuse:
 			if k.Browser != "" {
-				rep.Violate(stream, k.Index, k.Prov+": session-cookie-set-after-provider-error browser="+k.Browser,
-					fmt.Sprintf("/callback answered %d and set a non-empty session cookie (e-mail %q) although the identity provider's answer was an error / not vouching (%s); the browser presented a session cookie for %q: %s", o.status, o.email, k.Clause, k.BrowserEmail, where), *k)
+				violate(rep, stream, k, "session-cookie-set-after-provider-error browser="+k.Browser,
+					fmt.Sprintf("/callback answered %d and set a non-empty session cookie (e-mail %q) although the identity provider's answer was an error / not vouching (%s); the browser presented a session cookie for %q: %s", o.status, o.email, k.Clause, k.BrowserEmail, where))
 				return
 			}
 			if k.Decoy != "" && o.email == k.Decoy {
-				rep.Violate(stream, k.Index, k.Prov+": session-for-other-email",
-					fmt.Sprintf("session for %q, an e-mail-shaped value the identity provider put in a field that does not vouch (%s), while the e-mail field itself was %s: %s", o.email, k.PClass, k.Clause, where), *k)
+				violate(rep, stream, k, "session-for-other-email",
+					fmt.Sprintf("session for %q, an e-mail-shaped value the identity provider put in a field that does not vouch (%s), while the e-mail field itself was %s: %s", o.email, k.PClass, k.Clause, where))
 				return
 			}
-			rep.Violate(stream, k.Index, k.Prov+": session-created "+k.Clause,
-				fmt.Sprintf("a session (e-mail %q) resulted from an answer the identity provider did not vouch with: %s", o.email, where), *k)
+			violate(rep, stream, k, "session-created "+k.Clause,
+				fmt.Sprintf("a session (e-mail %q) resulted from an answer the identity provider did not vouch with: %s", o.email, where))
 		case lByRef:
 			if rr.emails[o.email] {
 				rep.Count("sessions_created_mutated_but_vouching_"+ps, 1)
@@ -572,12 +711,12 @@ func judge(rep *vh.Report, stream string, k *kase, o outcome) {
 			case k.Prov != "cognito" && refReadUnverified(k)[o.email]:
 				clause = "email-unverified"
 			}
-			rep.Violate(stream, k.Index, k.Prov+": session-created "+clause,
-				fmt.Sprintf("a session (e-mail %q) resulted from a mutated answer that cannot be read to vouch for it: %s", o.email, where), *k)
+			violate(rep, stream, k, "session-created "+clause,
+				fmt.Sprintf("a session (e-mail %q) resulted from a mutated answer that cannot be read to vouch for it: %s", o.email, where))
 		default:
 			if o.email != k.Email {
-				rep.Violate(stream, k.Index, k.Prov+": session-for-other-email",
-					fmt.Sprintf("session e-mail %q, the identity provider vouched for %q: %s", o.email, k.Email, where), *k)
+				violate(rep, stream, k, "session-for-other-email",
+					fmt.Sprintf("session e-mail %q, the identity provider vouched for %q: %s", o.email, k.Email, where))
 				return
 			}
 			if k.Label == lDontCare {
@@ -589,18 +728,18 @@ func judge(rep *vh.Report, stream string, k *kase, o outcome) {
 
 	case "refused":
 		if k.Site == "callback" && o.status < 400 {
-			sig := k.Prov + ": refusal-without-error-status"
+			sig := "refusal-without-error-status"
 			if k.Browser != "" {
 				sig += " browser=" + k.Browser
 			}
-			rep.Violate(stream, k.Index, sig,
-				fmt.Sprintf("/callback set no session but answered %d instead of an error response: %s", o.status, where), *k)
+			violate(rep, stream, k, sig,
+				fmt.Sprintf("/callback set no session but answered %d instead of an error response: %s", o.status, where))
 			return
 		}
 		rep.Count("refused_"+ps, 1)
 		switch k.Label {
 		case lRefuse:
-			rep.Count("refused_"+k.Prov+"_"+under(k.Clause), 1)
+			rep.Count("refused_"+tag+"_"+under(k.Clause), 1)
 		case lDontCare:
 			rep.Count("dontcare_refused_"+under(k.Clause), 1)
 		case lVouched:
